@@ -13,23 +13,23 @@ def C(text, ref, cat="exploration", note=NOTE, tech=TECH):
 CLAIMED = {
  "C01": C("Seeded search over documented-valid configurations x changing machine state (addresses, loopback routes, MAC, forwarding, clock) under a running daemon; every RA actually transmitted on any path is decoded from its wire bytes and compared option by option with an executable reference model fed with the values that build read. Exploration: the space of configurations and states is unbounded.", "6 (C01), 5.1"),
  "C03": C("Seeded search over accepted configurations built from boundary duration strings and NAT64 prefixes of every family/length; the simulated transport marshals like the real socket, so an unencodable RA fails the daemon at start-up exactly as in production; decoded values are compared with the configured meaning and representability is judged per field; a quarter of the runs re-initialise the interface (link flap, re-creation) so that every connection generation is judged.", "6 (C03)"),
- "C04": C("Seeded search over forwarding on/off timelines per interface interleaved with RA generation on all seven paths (initial, periodic, solicited, final, consistency check, metrics scrape, debug API) of the whole daemon; each RA/log line/metric/API answer is judged against the forwarding value that very build was given.", "6 (C04)"),
- "C05": C("The real Advertiser.multicast loop under the fake clock with the request channel owned by the harness: every accepted whole-second (min,max) pair (1.2 M, thorough; sampled in quick) runs 7 requests and is then cancelled, under seed-chosen start offsets (they seed the loop's PRNG); multicastDelay is additionally driven through its *rand.Rand parameter with scripted extreme and rounding-boundary draws (a deterministic sweep, labelled as such); further populations: fractional pairs, a stalling consumer, a second generation on the same Advertiser, and the whole daemon over up to 3 simulated hours for recurrence and for the pacing of unsolicited RAs under solicitations from :: (black box: unaccounted multicast RAs are a sum of waits within [min,max] apart). The component harness falls back to the black-box populations if the tree re-shapes the unexported functions it calls.", "6 (C05)"),
+ "C04": C("Seeded search over forwarding on/off timelines per interface interleaved with RA generation on all seven paths (initial, periodic, solicited, final, consistency check, metrics scrape, debug API) of the whole daemon; each RA/log line/metric/API answer is judged against the forwarding value that very build was given; configurations with several interfaces list a monitoring-only stanza at any position.", "6 (C04)"),
+ "C05": C("The real Advertiser.multicast loop under the fake clock with the request channel owned by the harness: every accepted whole-second (min,max) pair (1.2 M, thorough; sampled in quick) runs 7 requests and is then cancelled, under seed-chosen start offsets (they seed the loop's PRNG); multicastDelay is additionally driven through its *rand.Rand parameter with scripted extreme and rounding-boundary draws (a deterministic sweep, labelled as such); further populations: fractional pairs, a stalling consumer, a second generation on the same Advertiser, and the whole daemon over up to 3 simulated hours for recurrence and for the pacing of unsolicited RAs under solicitations from :: (black box: unaccounted multicast RAs are a sum of waits within [min,max] apart), with link flaps, failing transmissions and a link watcher that ends while the daemon goes on; a daemon that spins (events without fake time passing) stops the run and is reported. The component harness falls back to the black-box populations if the tree re-shapes the unexported functions it calls.", "6 (C05)"),
  "C06": C("Seeded search over solicitation/tick timelines (bounded-exhaustive grid corpus of <=3 (quick) / <=5 (thorough) solicitations from :: around the 3 s boundary x 3 interval settings, then random bursts, link flaps, transmit latency) against the real Advertiser on a fake clock; the spacing and served-within-3s rules are evaluated on the recorded WriteTo history.", "6 (C06)"),
  "C07": C("Seeded search over solicitation sequences (sources, repeats, bursts beyond the request queue, duplicates, timer-tick neighbourhoods, unicast_only on/off) with separate fault-free, transmit-latency, transmit-error and link-flap populations; unicast RAs are matched one-to-one with solicitations per destination and dial generation inside the 500 ms window, destinations and content are checked, and the sent/received/error counters are reconstructed from the metric update stream and compared with the transmissions actually made.", "6 (C07)"),
- "C08": C("The schedule space is the point: seeded stop instants (SIGTERM/SIGINT/SIGHUP) relative to pending solicited/periodic work, with send workers parked by the simulator in their forwarding read or inside WriteTo across the stop and released before, shortly after or long after it; exactly-one-final-RA, final-is-last, no-final-on-reload, nothing-after-return, clean result and promptness are judged on the ordered WriteTo/seam history.", "6 (C08)"),
- "C09": C("Complete single-message table (every hop limit 0..254 x RS/RA x advertiser/monitor) followed by seeded runs of 1..12 consecutive invalid messages (beyond the 5-try receive budget) mixed with valid ones; per invalid message the effects of the listener goroutine up to its next read are inspected (no RA, no consistency check, no hook, no metric other than the invalid counter), the invalid counter is reconciled by type, and liveness is judged afterwards: task still running, no re-dial, every delivered packet read, following valid solicitations answered; one population aims a recoverable receive error at the read right after a run of invalid messages (re-dial, then service continues).", "6 (C09)"),
+ "C08": C("The schedule space is the point: seeded stop instants (SIGTERM/SIGINT/SIGHUP) relative to pending solicited/periodic work, with send workers parked by the simulator in their forwarding read or inside WriteTo across the stop and released before, shortly after or long after it, bursts larger than the request queue, link events, failing transmissions and address tables that change right before the stop; exactly-one-final-RA, final-equals-the-current-normal-RA, final-is-last, no-final-on-reload, nothing-after-return, clean result and promptness are judged on the ordered WriteTo/seam history.", "6 (C08)"),
+ "C09": C("Complete single-message table (every hop limit 0..254 x RS/RA x advertiser/monitor) followed by seeded runs of 1..12 consecutive invalid messages (beyond the 5-try receive budget) mixed with valid ones; per invalid message the effects of the listener goroutine up to its next read are inspected (no RA, no consistency check, no hook, no metric other than the invalid counter), the invalid counter is reconciled by type, and liveness is judged afterwards: task still running, no re-dial, every delivered packet read, following valid solicitations answered; no host is ever sent more unicast RAs than it had sent valid solicitations when an invalid message preceded the surplus one; one population aims a recoverable receive error at the read right after a run of invalid messages (re-dial, then service continues).", "6 (C09)"),
  "C10": C("Part A (package system): the real Dialer.Dial/init loop driven through complete enumerations of dial/task outcome sequences to a stated depth plus cancellation points and seeded long sequences, against the documented policy (classification, 50 attempts, 250 ms steps to 3 s, prompt clean cancel). Part B (package corerad): one fault of every class injected at a seeded instant into a running advertiser/monitor with work pending, optionally followed by failing re-dials; together / classify / backoff / timeouts / halfalive rules on the seam history, and the task must serve solicitations again afterwards.", "6 (C10)", cat="fault_enumeration"),
- "C17": C("Whole daemon wired as in main() (shared plugin objects between advertisers, metrics collector and HTTP handler; real prometheus registry and promhttp): seeded requests for /metrics, /_/api/interfaces, /, /debug/pprof/ and unknown paths at lifecycle points (interface never initialised, re-initialising, advertising), debug.prometheus/pprof on/off, failing sysctl/rtnetlink reads, and a scrape parked inside a sysctl read while solicitations keep arriving; crash / block / routing rules on every request and a mirror rule comparing samples and the JSON rendering (every option kind present, prefix and route lifetimes) with ramodel fed with the values that request read; four in ten requests travel over a simulated connection through the real http.Server of the debug task, one population stops the daemon while such a request is stuck in a system call.", "6 (C17)"),
+ "C17": C("Whole daemon wired as in main() (shared plugin objects between advertisers, metrics collector and HTTP handler; real prometheus registry and promhttp): seeded requests for /metrics, /_/api/interfaces, /, /debug/pprof/ and unknown paths at lifecycle points (interface never initialised, re-initialising, advertising), debug.prometheus/pprof on/off, failing sysctl/rtnetlink reads, and a scrape parked inside a sysctl read while solicitations keep arriving; crash / block / routing rules on every request and a mirror rule comparing samples and the JSON rendering (every option kind present, prefix and route lifetimes) with ramodel fed with the values that request read (a gauge produced without its read is held against the simulated system); four in ten requests travel over a simulated connection through the real http.Server of the debug task, one population stops the daemon while such a request is stuck in a system call.", "6 (C17)"),
  "C18": C("Seeded message sequences on a monitoring interface (RAs with arbitrary headers and option lists incl. zero/infinite lifetimes, repeated prefixes and unknown options; RS/NS/NA; several senders; duplicates; receipt instants around whole seconds; both metrics backends; re-initialisation, slow receives, isolated receive timeouts); the metric updates the monitor makes while handling each message are compared as a multiset with a model computed from the decoded message and the fake receipt time. An auxiliary run of three monitors on real threads under -race follows (outside the technique: state shared between monitors without synchronisation has no effect in a one-goroutine-at-a-time simulation; a reported race fails, silence proves nothing).", "6 (C18), 14.5"),
- "C11": C("Part A: the real Dialer.Dial, dial(), dialNDP(), lookupInterface(), checkInterface() and setAutoconf()/restore against a simulated kernel (their calls into package net and ndp.Listen are substituted in a build-time copy of internal/system; nothing in /repo changes) with a persistent sysctl; enumerated outcome sequences x the place inside dial() where a failure arises x initial value x every (get,set,restore) fault combination on one generation, then seeded longer sequences with faults on several generations, external sysctl changes between connections and cancellation anywhere; exactly-once cleanup of every socket the kernel hands out, restore to the value found when that connection was opened, tolerated vs reported errors. Part B: the same rules on the whole daemon (flaps, interfaces going away, failing dials, sysctl failures, external changes).", "6 (C11), 14.5", cat="fault_enumeration"),
+ "C11": C("Part A: the real Dialer.Dial, dial(), dialNDP(), lookupInterface(), checkInterface() and setAutoconf()/restore against a simulated kernel (their calls into package net and ndp.Listen are substituted in a build-time copy of internal/system; nothing in /repo changes) with a persistent sysctl; enumerated outcome sequences x the place inside dial() where a failure arises x initial value x every (get,set,restore) fault combination on one generation, then seeded longer sequences with faults on several generations, external sysctl changes between connections, failing group-leave/close steps when a connection is given up, and cancellation anywhere; exactly-once cleanup of every socket the kernel hands out, restore to the value found when that connection was opened, tolerated vs reported errors. Part B: the same rules on the whole daemon (flaps, interfaces going away, failing dials, sysctl failures, external changes).", "6 (C11), 14.5", cat="fault_enumeration"),
  "C12": C("Peer routers on the simulated link, the multi-party half of CoreRAD: a second real CoreRAD instance with the same configuration (twins must stay silent about each other), our own RA echoed from another address, peers drawn from a small value domain independently of our configuration (absent/equal/different per field and option kind, both directions), and random larger RAs; every received RA crossed a real encode/decode. Counter increments, hook calls and log lines made while handling each peer RA are compared with an executable RFC 4861 6.2.7 model applied to (our RA at receipt according to ramodel, theirs as decoded).", "6 (C12), 5.3"),
  "C13": C("Address tables are environment nondeterminism: enumerated subsets (size <=2 quick / <=4 thorough) x all permutations of a 17-address pool, then seeded larger tables that change, are permuted, duplicated, emptied or fail while the daemon runs; each transmitted RA's prefix options are compared with the model applied to the listing that build was given.", "6 (C13-C15)"),
  "C14": C("Same populations as C13; the first RDNSS server of every transmitted RA is compared with the documented ranking applied to the listing that build was given; RAs transmitted although no address was eligible or the listing failed are violations.", "6 (C13-C15)"),
  "C15": C("Loopback route tables: enumerated subsets (size <=2 quick / <=4 thorough) x all permutations of a 13-route pool (nested prefixes with equal and different base, /128, ::/0, duplicates across two loopback interfaces), then seeded changing / permuted / duplicated / failing dumps; route options of every transmitted RA are compared with the model.", "6 (C13-C15)"),
  "C16": C("Real daemon on the bubble clock with solicitations placed around every deprecation deadline, plus the plugins' TimeNow seam driven by a seeded jumping clock (forward jumps, repeats, readings before the epoch); value, monotonicity, zero-after-deadline, preferred<=valid and constant rules on every RA.", "6 (C16)"),
  "C19": C("A real Watcher with a simulated rtnetlink event source (events pass through the real process()): the complete single-event table (127 masks x 7 states x matching/other interface), then seeded interleavings of Subscribe / emit batches / partial drains / end of watch (nil, error, cancellation) / subscribe-after-end / second Watch, with undrained subscribers; each subscriber channel is compared operation by operation with a bounded-FIFO model, the watcher must be back at quiescence after every emit (never blocks), channels are closed exactly once. Concurrent callers: the package is compiled from a yield-instrumented copy (tools/yieldinst: before every lock operation, send, select, close, and in every loop body), groups of Subscribe / notify / end-of-watch calls run under a plan-chosen schedule, deadlocks are detected, and the outcome is checked for linearizability against the model by trying every admissible sequential order. Auxiliary -race run of the same mix on real goroutines (outside the technique).", "6 (C19)"),
- "C20": C("The real Server.BuildTasks and Serve: task lists for configurations mixing advertise/monitor/neither interfaces, name groups and debug on/off against the model; supervision over scripted tasks (fail at an instant, return nil early, slow to stop, never ready, failing in the same instant as the signal) and real advertisers/monitors with SIGTERM/SIGINT/SIGHUP at seeded instants, the signal task parked in its log write between recording the signal and cancelling; cancel-all, wait-all, first-error, clean-signal, terminate-flag-before-cancellation and readiness rules.", "6 (C20)"),
+ "C20": C("The real Server.BuildTasks and Serve: task lists for configurations mixing advertise/monitor/neither interfaces, name groups and debug on/off against the model; supervision over scripted tasks (fail at an instant, return nil early, slow to stop, never ready, failing in the same instant as the signal) and real advertisers/monitors with SIGTERM/SIGINT/SIGHUP at seeded instants, the signal task parked in its supervisor notification between recording the signal and cancelling, a debug request in flight at the signal from a client that has stopped reading, a slow link watcher; prompt return after a signal, cancel-all, wait-all, first-error, clean-signal, terminate-flag-before-cancellation and readiness rules.", "6 (C20)"),
 }
 
 NOT_YET = {}
